@@ -1,1 +1,267 @@
-//! Hooks for property C19 (empty unless needed).
+//! Hooks for property C19: the outgoing datagram dispatch (`TransportsSender::poll_send`, the
+//! `ip::Config` predicates and the `noq::UdpSender` wrapper `Sender`) over caller-chosen sockets.
+use std::{
+    future::poll_fn,
+    io,
+    net::{IpAddr, SocketAddr},
+    pin::Pin,
+    sync::Arc,
+    task::Poll,
+};
+
+use ipnet::{Ipv4Net, Ipv6Net};
+use iroh_base::{CustomAddr, EndpointAddr, EndpointId, RelayUrl};
+
+pub use crate::endpoint::transports::CustomSender;
+use crate::{
+    Endpoint,
+    socket::{
+        mapped_addrs::MappedAddr,
+        transports::{FourTuple, IpConfig, Sender, Transmit, TransportsSender, VerifSenderHandles},
+    },
+};
+
+/// One bound IP socket: bind address, prefix length of its network, IPv6 scope, default-route flag.
+#[derive(Debug, Clone, PartialEq, Eq)]
+pub struct IpSock {
+    pub addr: IpAddr,
+    pub prefix: u8,
+    pub scope_id: u32,
+    pub is_default: bool,
+}
+
+impl IpSock {
+    fn config(&self) -> IpConfig {
+        match self.addr {
+            IpAddr::V4(a) => IpConfig::V4 {
+                ip_net: Ipv4Net::new(a, self.prefix).expect("prefix"),
+                port: 0,
+                is_required: true,
+                is_default: self.is_default,
+            },
+            IpAddr::V6(a) => IpConfig::V6 {
+                ip_net: Ipv6Net::new(a, self.prefix).expect("prefix"),
+                scope_id: self.scope_id,
+                port: 0,
+                is_required: true,
+                is_default: self.is_default,
+            },
+        }
+    }
+    fn of(c: &IpConfig) -> Self {
+        match *c {
+            IpConfig::V4 {
+                ip_net, is_default, ..
+            } => IpSock {
+                addr: IpAddr::V4(ip_net.addr()),
+                prefix: ip_net.prefix_len(),
+                scope_id: 0,
+                is_default,
+            },
+            IpConfig::V6 {
+                ip_net,
+                scope_id,
+                is_default,
+                ..
+            } => IpSock {
+                addr: IpAddr::V6(ip_net.addr()),
+                prefix: ip_net.prefix_len(),
+                scope_id,
+                is_default,
+            },
+        }
+    }
+    /// `ip::Config::is_valid_send_addr`
+    pub fn is_valid_send_addr(&self, src: Option<IpAddr>, dst: SocketAddr) -> bool {
+        self.config().is_valid_send_addr(src, dst)
+    }
+    /// `ip::Config::is_valid_default_addr`
+    pub fn is_valid_default_addr(&self, src: Option<IpAddr>, dst: SocketAddr) -> bool {
+        self.config().is_valid_default_addr(src, dst)
+    }
+    /// The text the `ip_sender.poll_send` event uses for this socket.
+    pub fn event_key(&self) -> String {
+        format!("{:?}", self.config())
+    }
+}
+
+/// Result of a single `poll_send`.
+#[derive(Debug, Clone, PartialEq, Eq)]
+pub enum Polled {
+    Pending,
+    Ok,
+    Err(String),
+}
+
+fn polled(p: Poll<io::Result<()>>) -> Polled {
+    match p {
+        Poll::Pending => Polled::Pending,
+        Poll::Ready(Ok(())) => Polled::Ok,
+        Poll::Ready(Err(e)) => Polled::Err(format!("{:?}: {e}", e.kind())),
+    }
+}
+
+/// A real `TransportsSender` over real bound IP sockets, with harness-held relay and custom ends.
+#[derive(Debug)]
+pub struct Senders {
+    sender: Pin<Box<TransportsSender>>,
+    handles: VerifSenderHandles,
+}
+
+impl Senders {
+    /// Binds the sockets (must run inside a tokio runtime).
+    pub fn new(
+        socks: &[IpSock],
+        n_relay: usize,
+        custom: Vec<Arc<dyn CustomSender>>,
+    ) -> io::Result<Self> {
+        let (sender, handles) =
+            TransportsSender::verif_new(socks.iter().map(|s| s.config()).collect(), n_relay, custom)?;
+        Ok(Self {
+            sender: Box::pin(sender),
+            handles,
+        })
+    }
+
+    /// (socket, actually bound local address) for every bound IP socket.
+    pub fn ip_sockets(&self) -> Vec<(IpSock, SocketAddr)> {
+        self.handles
+            .ip_sockets()
+            .iter()
+            .map(|(c, a)| (IpSock::of(c), *a))
+            .collect()
+    }
+
+    async fn poll_once(&mut self, path: FourTuple, payload: &[u8]) -> Polled {
+        let transmit = Transmit {
+            ecn: None,
+            contents: payload,
+            segment_size: None,
+        };
+        let sender = &mut self.sender;
+        poll_fn(|cx| Poll::Ready(polled(sender.as_mut().poll_send(cx, &path, &transmit)))).await
+    }
+
+    /// One `TransportsSender::poll_send` for an IP path.
+    pub async fn send_ip(&mut self, dst: SocketAddr, src: Option<IpAddr>, payload: &[u8]) -> Polled {
+        self.poll_once(
+            FourTuple::Ip {
+                remote: dst,
+                local: src,
+            },
+            payload,
+        )
+        .await
+    }
+
+    /// One `TransportsSender::poll_send` for a relay path.
+    pub async fn send_relay(&mut self, url: RelayUrl, endpoint_id: EndpointId, payload: &[u8]) -> Polled {
+        self.poll_once(FourTuple::Relay { url, endpoint_id }, payload)
+            .await
+    }
+
+    /// One `TransportsSender::poll_send` for a custom path.
+    pub async fn send_custom(
+        &mut self,
+        remote: CustomAddr,
+        local: Option<CustomAddr>,
+        payload: &[u8],
+    ) -> Polled {
+        self.poll_once(FourTuple::Custom { remote, local }, payload)
+            .await
+    }
+
+    /// Everything the relay sender `i` handed to its relay path so far.
+    pub fn relay_received(&mut self, i: usize) -> Vec<(RelayUrl, EndpointId, Vec<u8>)> {
+        let mut out = Vec::new();
+        while let Some(item) = self.handles.relay[i].try_recv() {
+            out.push(item);
+        }
+        out
+    }
+
+    /// Closes the actor side of relay sender `i`.
+    pub fn close_relay(&mut self, i: usize) {
+        self.handles.relay[i].close()
+    }
+
+    /// Wraps the sender into the `noq::UdpSender` of `endpoint`'s socket (what QUIC calls).
+    pub fn into_quic_sender(self, endpoint: &Endpoint) -> QuicSender {
+        let sock = endpoint.verif_inner().verif_sock();
+        let Senders { sender, handles } = self;
+        let sender = *Pin::into_inner(sender);
+        QuicSender {
+            sender: Box::pin(Sender::verif_new(sock, sender)),
+            handles,
+        }
+    }
+}
+
+/// The real `Sender` (`noq::UdpSender`) of an endpoint's socket over harness transports.
+#[derive(Debug)]
+pub struct QuicSender {
+    sender: Pin<Box<Sender>>,
+    handles: VerifSenderHandles,
+}
+
+impl QuicSender {
+    /// One `noq::UdpSender::poll_send` with the given destination and optional source address.
+    pub async fn send(&mut self, destination: SocketAddr, src_ip: Option<IpAddr>, payload: &[u8]) -> Polled {
+        let transmit = noq_udp::Transmit {
+            destination,
+            ecn: None,
+            contents: payload,
+            segment_size: None,
+            src_ip,
+        };
+        let sender = &mut self.sender;
+        poll_fn(|cx| Poll::Ready(polled(noq::UdpSender::poll_send(sender.as_mut(), &transmit, cx))))
+            .await
+    }
+
+    pub fn relay_received(&mut self, i: usize) -> Vec<(RelayUrl, EndpointId, Vec<u8>)> {
+        let mut out = Vec::new();
+        while let Some(item) = self.handles.relay[i].try_recv() {
+            out.push(item);
+        }
+        out
+    }
+
+    pub fn ip_sockets(&self) -> Vec<(IpSock, SocketAddr)> {
+        self.handles
+            .ip_sockets()
+            .iter()
+            .map(|(c, a)| (IpSock::of(c), *a))
+            .collect()
+    }
+}
+
+/// The synthetic address QUIC uses for `endpoint_id` behind relay `url` on this endpoint.
+pub fn relay_mapped_addr(endpoint: &Endpoint, url: RelayUrl, endpoint_id: EndpointId) -> SocketAddr {
+    endpoint
+        .verif_inner()
+        .verif_sock()
+        .verif_relay_mapped_addr(url, endpoint_id)
+}
+
+/// The synthetic address QUIC uses for a custom transport address on this endpoint.
+pub fn custom_mapped_addr(endpoint: &Endpoint, addr: CustomAddr) -> SocketAddr {
+    endpoint.verif_inner().verif_sock().verif_custom_mapped_addr(addr)
+}
+
+/// The per-endpoint synthetic address of `endpoint_id`; no per-remote state is started.
+pub fn endpoint_mapped_addr(endpoint: &Endpoint, endpoint_id: EndpointId) -> SocketAddr {
+    endpoint
+        .verif_inner()
+        .verif_sock()
+        .verif_endpoint_mapped_addr(endpoint_id)
+}
+
+/// Starts the per-remote state for `addr.id` (what `connect` does first) and returns its synthetic address.
+pub async fn start_remote_state(endpoint: &Endpoint, addr: EndpointAddr) -> Result<SocketAddr, String> {
+    match endpoint.verif_inner().resolve_remote(addr).await {
+        Ok(Ok(mapped)) => Ok(mapped.private_socket_addr()),
+        Ok(Err(e)) => Err(format!("address lookup failed: {e}")),
+        Err(e) => Err(format!("remote state stopped: {e}")),
+    }
+}
